@@ -214,14 +214,21 @@ def run(ck):
         if weights is not None:
             dense = bool(np.count_nonzero(weights) > 20)
             small = nl * REL_TOL < ABS_TOL
+            # class of the INPUT (not of the outcome): the size of the generating weights.  Weights up to 1 (with the shipped kernel: pore volumes up to
+            # 1 cm3/g per width, loadings of the size of real isotherms) are reproduced on the unchanged tree (58 000 sparse combinations, worst ratio to the bound 0.43);
+            # with larger weights SLSQP stops early on a part of the inputs (known findings S45-C18a/b).
+            largest = "above 1" if float(np.max(weights)) > 1.0 else "at most 1"
             if small:
                 ck.count(("small-input", sig.get("kernel")), nontrivial=False, bucket="exact combination with |loading| < 7.5 (absolute tolerance of the optimiser decides)")
+            if largest == "above 1":
+                note("exact combination, some weight above 1 (known findings S45-C18a/b): ratio of the fit error to the bound", e_abs / max(ABS_TOL, REL_TOL * nl))
+            elif small:
                 note("exact combination: absolute fit error of small inputs", e_abs)
             else:
                 note(f"exact combination: fit error (order {order})", e_abs / nl)
             if not (e_abs <= max(ABS_TOL, REL_TOL * nl)):
-                fail_case({**sig, "clause": "fitted isotherm does not match an exact non-negative combination of kernel isotherms", "dense_combination": dense},
-                             {**detail, "relative_l2_error": e_abs / max(nl, 1e-300), "absolute_l2_error": e_abs, "loading_l2": nl})
+                fail_case({**sig, "clause": "fitted isotherm does not match an exact non-negative combination of kernel isotherms", "dense_combination": dense, "largest_weight": largest},
+                             {**detail, "relative_l2_error": e_abs / max(nl, 1e-300), "absolute_l2_error": e_abs, "loading_l2": nl, "largest_weight_value": float(np.max(weights))})
         return w, dist, cum, kl
 
     def fit(path, pressure, loading, order, sig, detail):
@@ -251,13 +258,14 @@ def run(ck):
         kernel = own_kernel(path)
         return np.asarray([kernel[size](np.asarray(pressure, dtype=float)) for size in kernel]).T @ weights
 
-    # TODO(candidate finding, reported, kept OUT of the generator): the fit is not scale covariant.  Weights stay in 0.05 .. 1 (loadings of the size of real
-    # isotherms, 0.01 .. 100 mmol/g).  On the unchanged tree: shipped kernel, the kernel's own pressures kp[20:170:5], isotherm = s x (kernel isotherm of the 11th width):
-    # relative L2 misfit below 1e-4 for s <= 10 but 0.100 for s = 30 and s = 100 (reported total volume 36.25 instead of 30; scipy nnls solves the same problem to 1e-17);
-    # user2 kernel, weight 1e4 on the width 9.5 (column 1e5 times smaller than the others): misfit 0.75; any isotherm with sum of squares < 1e-4: answer 0.
-    # Same root as the known finding S38: SLSQP with an ABSOLUTE ftol = 1e-4, start vector 0, reports success when the objective stalls.
-    # TODO(not generated): a kernel file REWRITTEN under the same path during the process is answered from `_LOADED` (the hypothesis "one content per path" of
-    # Props/C18/Memo.lean `loaded_cache_transparent`); by design of the cache, the property's quantifier does not include files that change.
+    # The fit is not scale covariant (Props/C18/Scale.lean: the specification - the set of minimisers - is).  The histories and the first loop keep the weights in
+    # 0.05 .. 1; the "scale sweep" below multiplies sparse weight vectors by 1e-7 .. 2e3 and balances them against the size of the kernel columns:
+    #   * small side (isotherms whose sum of squares is near the optimiser's ABSOLUTE ftol = 1e-4, answered by the start vector 0): inside the property as written
+    #     ("matches the input to within the optimiser tolerance": the tolerance is absolute), decided by ABS_TOL; not a finding;
+    #   * large side (some weight above 1): SLSQP reports success far from the minimum on a part of the inputs: known findings S45-C18a (shipped kernel) and
+    #     S45-C18b (user kernels; columns of very different size), siblings of S38, same root.
+    # NOT generated (outside the quantifier): a kernel file REWRITTEN under the same path during the process is answered from `_LOADED` (the hypothesis "one content
+    # per path" of Props/C18/Memo.lean `loaded_cache_transparent`); by design of the cache, the property's quantifier does not include files that change.
     def sparse_weights(nw, k=None):
         wts = np.zeros(nw)
         for j in rng.sample(range(nw), k or rng.randint(1, min(4, nw))):
@@ -293,10 +301,55 @@ def run(ck):
                 ck.count(("fit-arb", sig["kernel"], order, i), bucket=f"arbitrary data:{sig['kernel']}:order {order}")
                 certificate(path, pressure, load2.tolist(), order, None, sig, {"n_points": len(pressure), "loading_head": load2[:4].tolist()}, widths0)
 
-        # ------------------------------------------------------------------ histories: sequences of fits in ONE process on related pressure grids
-        # (Props/C18/Memo.lean: whatever is kept between calls must be invisible; every answer of a history passes the certificate of a single fit)
         def kname(k):
             return "shipped" if k == "shipped" else "user"
+
+        # ------------------------------------------------------------------ scale sweep: the same sparse combinations at other magnitudes
+        # (Props/C18/Scale.lean `isMinimiser_smul`: the minimisers of s x isotherm are s x the minimisers of the isotherm, so the property is the same statement at every scale)
+        #   tiny      weights x 1e-7 .. 1e-4: |loading|_2 < 0.1, the absolute side of the tolerance (the answer may be the start vector 0; never worse than that)
+        #   large     weights x 3 .. 2000
+        #   balanced  weight of a width = (0.05 .. 1) x M / (largest value of its kernel column on the grid), M = 10 .. 3000: every chosen width contributes a loading of
+        #             the same order whatever the size of its column (columns of the harness-made user kernels span 12 orders of magnitude)
+        # Measured on the unchanged tree (45 586 combinations with all weights <= 1 of this generator): worst ratio to the bound 0.31, no refusal, no other clause fails.
+        def scale_case(k, P, wts, order, mode):
+            path, widths0, _, _ = KERNEL_FILES[k]
+            sig = {"kernel": kname(k), "bspline_order": order}
+            detail = {"kernel_file": os.path.basename(path), "generator": "scale sweep: " + mode, "weights": {str(widths0[j]): float(wts[j]) for j in range(len(widths0)) if wts[j] > 0},
+                      "n_points": len(P), "pressure": [float(v) for v in P]}
+            ck.count(("scale", k, mode, order, len(P), float(np.max(wts))), bucket=f"scale sweep:{kname(k)}:{mode}:largest weight {'above 1' if np.max(wts) > 1 else 'at most 1'}")
+            certificate(path, P, combo(path, P, wts), order, wts, sig, detail, widths0)
+
+        # two fixed members of the region (the reproductions of probes/agent_notes/S-C18.md), then the random sweep
+        w_fix = np.zeros(len(widths_shipped))
+        w_fix[10] = 30.0
+        scale_case("shipped", kp[20:170:5].copy(), w_fix, 0, "large (fixed: 30 x the kernel isotherm of the 11th width on the kernel's own pressures)")
+        w_fix = np.zeros(len(uw2))
+        w_fix[3] = 1e5
+        scale_case("user2", up2[1:-1].copy(), w_fix, 0, "balanced (fixed: weight 1e5 on the width 9.5, whose column is 1e5 times smaller than the others)")
+        for i in range(ck.n(24, 90)):
+            k = rng.choice(["shipped", "shipped", "user", "user2", "user3", "twin"])
+            path, widths0, plo, phi = KERNEL_FILES[k]
+            npts = {"shipped": rng.choice([25, 40, 60]), "user": rng.choice([12, 14]), "twin": rng.choice([12, 14]), "user2": rng.choice([10, 12]), "user3": 8}[k]
+            P = np.array(sorted({logu(rng, max(plo, 1e-7) * 1.01, phi * 0.99) for _ in range(npts)}))
+            wts = sparse_weights(len(widths0))
+            mode = rng.choice(["tiny", "large", "balanced"])
+            if mode == "tiny":
+                wts = wts * 10 ** rng.uniform(-7, -4)
+            elif mode == "large":
+                wts = wts * 10 ** rng.uniform(0.5, 3.3)
+            else:
+                kernel = own_kernel(path)
+                M = 10 ** rng.uniform(1, 3.5)
+                for j, size in enumerate(kernel):
+                    if wts[j] > 0:
+                        top = float(np.max(np.abs(kernel[size](P))))
+                        wts[j] = wts[j] * M / top if top > 0 else 0.0
+                if not np.any(wts > 0):
+                    continue
+            scale_case(k, P, wts, rng.choice([0, 0, 2]), mode)
+
+        # ------------------------------------------------------------------ histories: sequences of fits in ONE process on related pressure grids
+        # (Props/C18/Memo.lean: whatever is kept between calls must be invisible; every answer of a history passes the certificate of a single fit)
 
         def related_grids(G, top):
             n = len(G)
@@ -594,8 +647,10 @@ def run(ck):
     ck.cov["twin_kernel_files_same_size"] = bool(twin_same_size)
     ck.cov["worst"] = {k: float(f"{v:.3g}") for k, v in sorted(worst.items())}
     ck.cov["rule"] = ("non-negative sparse (1-4 widths) and dense weight vectors over the 77 kernel pore widths and over user kernel files with 6, 6 and 3 widths, 8-60 log-uniform pressures inside the kernel range, spline orders 0-3 "
-                      "(every smoothed fit against the unsmoothed fit of the same data and de Boor's recursion), arbitrary increasing data, pressure limits anywhere (both, one, none; adsorption and desorption branch) with perturbed data outside them, "
+                      "(every smoothed fit against the unsmoothed fit of the same data and de Boor's recursion), the sparse combinations again at other magnitudes (weights x 1e-7..1e-4, x 3..2000, "
+                      "and weights balanced against the size of the kernel columns: every width contributes 0.5-3000 mmol/g), arbitrary increasing data, pressure limits anywhere (both, one, none; adsorption and desorption branch) with perturbed data outside them, "
                       "pressures outside the kernel range; histories of fits in one process on related grids (same length and end points, one point moved, subsets, shifted, reversed, arrays changed in place, other isotherm / order / kernel on "
                       "the same grid, other limits or isotherm through the entry point), every answer certified with an independently loaded and interpolated kernel, repeated calls compared")
-    ck.assumptions += ["scipy SLSQP (ftol 1e-4, absolute) is numerical: fit error of exact combinations checked to max(0.15, 2e-2 |loading|_2) in L2",
+    ck.assumptions += ["scipy SLSQP (ftol 1e-4, absolute) is numerical: fit error of exact combinations checked to max(0.15, 2e-2 |loading|_2) in L2 at every magnitude of the weights "
+                       "(the absolute floor is the property's 'optimiser tolerance': isotherms with a sum of squares near ftol may be answered by the start vector 0)",
                        "scipy interp1d(kind='cubic') of the kernel file is residue; scipy splev is compared with the de Boor model on every smoothed fit"]
